@@ -116,6 +116,25 @@ PROPS = {
                    'a Lean theorem. Trusted: Lean kernel, standard axioms, harness, Go regexp.',
         technique='Lean 4 proof (partition and offset theorems by induction) + model/implementation correspondence with spec oracle',
     ),
+    'C12': dict(
+        areas=[('quote', 1500, 150000)],
+        rule='strings built from every shell metacharacter, quotes, backslashes, newlines, blanks, globs, `$()`, backticks, '
+             'brace lists, non-ASCII; templates of literal words and placeholders {} {q} {+} {n} {+n} {N} {-N} {A..} {..B} {sN} '
+             'and escaped ones, 0..3 items, 0..3 selected, AWK / literal delimiters; every expansion is evaluated by the real '
+             '/bin/sh (dash) and bash (printf %s\\0); non-trivial = an item or query containing a character special to the '
+             'shell is substituted; distinct = distinct case lines',
+        trusted=['/bin/sh (dash) and bash as the reference for POSIX word splitting; the Lean shell model ShEval is compared '
+                 'with both on every quoted string', 'fish is not installed: its single-quote rule is modelled, not validated',
+                 'the placeholder regular expression (templates are lists of blank-separated parts)'],
+        level_text='Lean 4 theorems for all byte strings: the quoted form evaluates (in a model of POSIX word splitting that fails '
+                   'on any unquoted metacharacter) to exactly the original text; joined quoted items give one word per item in '
+                   'order; in-context composition; the fish escaper round-trips in a model of fish quoting; the tmux re-quoting '
+                   'is the same function. QuoteEntry / escapeSingleQuote / replacePlaceholder are compared with the model and '
+                   'every expansion is handed to the real dash and bash, whose argv must be the original texts.',
+        level_note='Partial: the template-level statement is checked per case (model + real shells), not proved; {f} (temp file) '
+                   'and {r} (raw) are excluded by their documented meaning. NUL bytes are outside the quantifier.',
+        technique='Lean 4 proof (round-trip through a shell word-splitting model, by induction on the text) + correspondence incl. real shells',
+    ),
     'C18': dict(
         level_text='Lean 4 theorems over a hand-written model of src/history.go (file contents after any sequence of '
                    'sessions, cursor range, slot-editor refinement, edits never persisted), tied to /repo by an in-process '
